@@ -666,7 +666,13 @@ namespace photon
         Switch _do_goto(thread* to) const {
             auto from = current;
             prefetch_context(from, to);
-            from->state = states::READY;
+            // `from` stays in the run queue, where a work-stealing vCPU may
+            // take every READY thread it is allowed to: a thread that can be
+            // stolen must not look READY before its context has been saved.
+            // It stays RUNNING (see ws_scan_q) across the switch, and is
+            // marked READY on the other side (switch_context_goto() etc.)
+            from->state = unlikely(from->allow_work_stealing()) ?
+                          states::RUNNING : states::READY;
             to->state = states::RUNNING;
             set_current(to);
             return {from, to};
@@ -989,6 +995,19 @@ R"(
 #endif
 
 #endif  // x86 or arm
+
+    // runs on the stack of the next thread, i.e. once the context of the
+    // thread that switched out has been saved
+    static void mark_ready_after_switch(void* th) {
+        ((thread*)th)->state = states::READY;
+    }
+    // the switch that follows AtomicRunQ::goto_next() / try_goto()
+    inline void switch_context_goto(Switch sw) {
+        if (unlikely(sw.from->state == states::RUNNING))    // may be stolen
+            switch_context_defer(sw.from, sw.to, &mark_ready_after_switch, sw.from);
+        else
+            switch_context(sw.from, sw.to);
+    }
 
     extern "C" __attribute__((noreturn))
     void _photon_switch_context_defer_die(void* arg, uint64_t defer_func_addr, void** to)
@@ -1342,14 +1361,14 @@ insert_list:
         if_update_now();
         rq.current->error_number = 0;
         auto sw = AtomicRunQ(rq).goto_next();
-        switch_context(sw.from, sw.to);
+        switch_context_goto(sw);
         return consume_error_number(rq.current);
     }
 
     __attribute__((noinline))
     void thread_yield_fast() {
         auto sw = AtomicRunQ().goto_next();
-        switch_context(sw.from, sw.to);
+        switch_context_goto(sw);
     }
 
     int thread_yield_to(thread* th) {
@@ -1375,7 +1394,7 @@ insert_list:
         auto sw = AtomicRunQ(rq).try_goto(th);
         if_update_now();
         rq.current->error_number = 0;
-        switch_context(sw.from, sw.to);
+        switch_context_goto(sw);
         return consume_error_number(rq.current);
     }
 
@@ -1535,12 +1554,16 @@ insert_list:
 #endif
     }
 
+    static void do_stack_pages_gc_ready(void* arg) {
+        mark_ready_after_switch(arg);
+        do_stack_pages_gc(arg);
+    }
     int stack_pages_gc(thread* th) {
         if (!th || th->vcpu != CURRENT->vcpu)
             LOG_ERROR_RETURN(EINVAL, -1, "target thread ` must be run on CURRENT vCPU", th);
         if (th->state == RUNNING) {
             auto next = AtomicRunQ().goto_next().to;
-            switch_context_defer(th, next, do_stack_pages_gc, th);
+            switch_context_defer(th, next, do_stack_pages_gc_ready, th);
         } else {
             do_stack_pages_gc(th);
         }
@@ -2200,10 +2223,11 @@ insert_list:
     }
 
     struct migrate_args {thread* th; vcpu_base* v;};
-    static int do_thread_migrate(thread* th, vcpu_base* v);
+    static int do_thread_migrate(thread* th, vcpu_base* v, bool deferred = false);
     static void do_defer_migrate(void* m_) {
-        auto m = (migrate_args*)m_;
-        do_thread_migrate(m->th, m->v);
+        // the arguments live on the stack of the migrating thread
+        auto m = *(migrate_args*)m_;
+        do_thread_migrate(m.th, m.v, true);
     }
     static int defer_migrate_current(vcpu_base* v) {
         auto sw = AtomicRunQ().goto_next();
@@ -2232,10 +2256,15 @@ insert_list:
         }
         return do_thread_migrate(th, v);
     }
-    static int do_thread_migrate(thread* th, vcpu_base* vb) {
+    static int do_thread_migrate(thread* th, vcpu_base* vb, bool deferred) {
         assert(vb != th->vcpu);
         AtomicRunQ arq;
         SCOPED_LOCK(th->lock);
+        // a thread that migrates itself and may be stolen was kept RUNNING
+        // across the switch (see _do_goto()); its context has been saved by
+        // now, and nobody can take it while the run queue is locked
+        if (deferred && th->state == RUNNING)
+            th->state = READY;
         if (th->state != READY || th->vcpu != CURRENT->vcpu) {
             LOG_ERROR_RETURN(EINVAL, -1,
                 "thread ` state changed during migrate", th)
